@@ -76,6 +76,9 @@ def gen_cfgs(tier, rng):
         nv = d + (1 if has_t else 0)
         nout = {"laplacian": 1, "divergence": d, "vector_laplacian": rng.randint(1, 3), "advection": 2}[op]
         polys = [prand(rng, nv, 4, 4) or {(0,) * nv: 1} for _ in range(nout)]
+        if rng.random() < 0.2:     # fields of very small / very large magnitude (powers of two: still exact)
+            s = 2.0 ** rng.choice([-40, -24, 24])
+            polys = [{es: v * s for es, v in p.items()} for p in polys]
         pt = [rng.randint(-6, 6) / rng.choice([1, 2, 4]) for _ in range(nv)]
         out.append(dict(op=op, has_t=has_t, d=d, polys=polys, pt=pt))
     for c in out:
